@@ -227,6 +227,20 @@ def enum_algebra(seed):
                 continue
             if bool(got) != want:
                 bad({"A": sorted(A), "B": sorted(Bp), "arg": kname, "op": pred}, f"{pred}({kname} {sorted(Bp)}) on {sorted(A)} = {got}, expected {want}")
+        # the set itself as the argument of its own operations
+        for op, want in (("difference", set()), ("intersection", sa), ("union", sa), ("symmetric_difference", set())):
+            for upd in ("", "_update"):
+                name = "update" if (op, upd) == ("union", "_update") else op + upd
+                cases += 1
+                s = contentsSet(A.values())
+                try:
+                    r = getattr(s, name)(s)
+                    got = {x.location for x in (s if upd else r)}
+                except Exception as e:
+                    bad({"A": sorted(A), "arg": "the set itself", "op": name}, f"s.{name}(s) on {sorted(A)} raised {e!r}")
+                    continue
+                if got != want:
+                    bad({"A": sorted(A), "arg": "the set itself", "op": name}, f"s.{name}(s) on {sorted(A)} gives {sorted(got)}, map semantics give {sorted(want)}")
         # relocation
         cases += 1
         moved = contentsSet(A.values()).change_offset("/", "/new/root")
